@@ -3,7 +3,7 @@ import Rsa.Core.Wire
 import Rsa.Core.Stats
 import Rsa.Gen.C06
 
-open Lean Rsa.Wire Rsa.Stats
+open Lean Rsa.Wire Rsa.Stats Rsa.Gen.C06
 
 namespace Rsa.Drv.C06
 
@@ -98,18 +98,46 @@ def listFn (l : List Float) : Nat → Float := fun i => l.getD i 0
 
 /-- the t statistics of `t_tests` (as `|squareform(t)|`), `t_test_0` (`t`), `t_test_nc`
     (`|t|`) for given effects and variances -/
-def tStatsJson (m : Nat) (e : List (Option Float)) (v : Vars Float) (ncMean : Option Float) : Json :=
+def tStatsJson (m : Nat) (e : List (Option Float)) (v : Vars Float) (ncMean ncMeanUpper : Option Float) :
+    R Json := do
+  -- the call sites of all_tests and of pair_tests / zero_tests / nc_tests must hand over the same
+  -- things (codes re-read from the source: see `routes_forward_dof_and_variances`)
+  if allPairVar != singlePairVar || allZeroVar != singleZeroVar || allNcVar != singleNcVar
+      || allNcCeil != singleNcCeil then
+    throw "all_tests and the single wrappers pass different variances / ceilings"
+  if singlePairVar != 1 || resultPairVar != 1 || resultAllDiffVar != 1 then
+    throw "the pair test does not receive diff_var"
+  if singleZeroVar != 0 || resultZeroVar != 0 || resultAllModelVar != 0 then
+    throw "the test against zero does not receive model_var"
+  if resultNcVar != 4 || resultAllNcVar != 4 then
+    throw "the ceiling test does not receive noise_ceil_var"
   let ok := e.all Option.isSome
   let ef : Nat → Float := fun i => (e.getD i none).getD 0
-  if !ok then obj [("pair", Json.null), ("zero", Json.null), ("nc", Json.null)] else
+  if !ok then pure (obj [("pair", Json.null), ("zero", Json.null), ("nc", Json.null)]) else
   let pair := (List.range m).map (fun i => (List.range m).map (fun k =>
     absG (tPairMat epsF m ef v.diff i k)))
   let zero := (List.range m).map (fun i => tZero epsF ef (listFn v.model) i)
-  let ncv := listFn (v.nc.map (·.1))
-  let nc := match ncMean with
+  let ncv ← match singleNcVar with
+    | 2 => pure (listFn (v.nc.map (·.1)))
+    | 3 => pure (listFn (v.nc.map (·.2)))
+    | _ => throw "unexpected variance for the ceiling test"
+  let ncm ← match singleNcCeil with
+    | 0 => pure ncMean
+    | 1 => pure ncMeanUpper
+    | _ => throw "unexpected ceiling value for the ceiling test"
+  let nc := match ncm with
     | some c => ofList ofFloat ((List.range m).map (fun i => absG (tNc epsF ef ncv c i)))
     | none => Json.null
-  obj [("pair", ofList (ofList ofFloat) pair), ("zero", ofList ofFloat zero), ("nc", nc)]
+  pure (obj [("pair", ofList (ofList ofFloat) pair), ("zero", ofList ofFloat zero), ("nc", nc)])
+
+/-- the degrees of freedom that reach each t-test through `Result.test_all` -> `all_tests` and
+    through `Result.test_pairwise / test_zero / test_noise` -> the single wrappers -/
+def dofRoutes (d : Int) : Json :=
+  obj [("all", ofList ofInt [allPairDof (resultAllDof d), allZeroDof (resultAllDof d), allNcDof (resultAllDof d)]),
+       ("single", ofList ofInt [singlePairDof (resultPairDof d), singleZeroDof (resultZeroDof d),
+          singleNcDof (resultNcDof d)]),
+       ("util_all", ofList ofInt [allPairDof d, allZeroDof d, allNcDof d]),
+       ("util_single", ofList ofInt [singlePairDof d, singleZeroDof d, singleNcDof d])]
 
 /-- everything a `Result` reports for the t-test: variances, SEM, means, t statistics -/
 def resultOp (j : Json) : R Json := do
@@ -137,10 +165,37 @@ def resultOp (j : Json) : R Json := do
     let nr ← asOpt asFloat (fldD j "n_rdm" Json.null)
     let np ← asOpt asFloat (fldD j "n_pattern" Json.null)
     let ncLow ← asList (asOpt asFloat) (fldD j "nc_lower" (Json.arr #[]))
+    let ncUp ← asList (asOpt asFloat) (fldD j "nc_upper" (Json.arr #[]))
+    let dof ← asInt (fldD j "dof" (ofInt 1))
     let v ← extractVars vnd ndim m (ncIncluded ndim lastDim m) nr np
     let sem := v.model.map getSem
+    let t ← tStatsJson m eff v (nanMean ncLow) (nanMean ncUp)
+    -- confidence intervals / error bars: `q` is the Student-t quantile the harness computed at the
+    -- tail `propcut` (returned, so that the harness can check it used the model's tail)
+    let pct ← asOpt asFloat (fldD j "pct" Json.null)
+    let q ← asOpt asFloat (fldD j "q" Json.null)
+    let level : Float := match pct with
+      | some p => Rsa.Gen.C06.ebCiPercent p
+      | none => Rsa.Gen.C06.ebCiDefault
+    let upct : Float := match pct with
+      | some p => p
+      | none => Rsa.Gen.C06.utilCiDefault
+    let ciPart : List (String × Json) := match q with
+      | none => []
+      | some q =>
+        let ms := means.map (fun x => x.getD 0)
+        let okm := means.all Option.isSome
+        let cis := List.zipWith (fun mu se => resultCi mu se q) ms sem
+        let ebs := List.zipWith (fun mu se => resultEbCi mu se q) ms sem
+        let ue := v.model.map (fun mv => utilEbCi mv q)
+        [("ci", if okm then ofList (ofList ofFloat) [cis.map (·.1), cis.map (·.2)] else Json.null),
+         ("eb_ci", if okm then ofList (ofList ofFloat) [ebs.map (·.1), ebs.map (·.2)] else Json.null),
+         ("util_eb_ci", ofList (ofList ofFloat) [ue.map (·.1), ue.map (·.2)])]
+    let us := v.model.map utilEbSem
     pure (obj (base ++ [("vars", ofVars ofFloat v), ("sem", ofList ofFloat sem),
-      ("t", tStatsJson m eff v (nanMean ncLow))]))
+      ("t", t), ("dof", dofRoutes dof),
+      ("propcut", ofList ofFloat [Rsa.Gen.C06.ciPropCut level, Rsa.Gen.C06.utilPropCut upct]),
+      ("util_eb_sem", ofList (ofList ofFloat) [us.map (·.1), us.map (·.2)])] ++ ciPart))
 
 /-- the three bootstrap tests on (collapsed) bootstrap evaluations -/
 def bootOp (j : Json) : R Json := do
@@ -156,17 +211,18 @@ def bootOp (j : Json) : R Json := do
   let pair := (List.range m).map (fun i => (List.range m).map (fun k =>
     bootPairMat ltb eqb nB m c i k))
   let base := [("pair", ofList (ofList ofFloat) pair)]
-  -- zero / noise-ceiling tests exist for 2-D evaluations only
-  if !shape.isEmpty then pure (obj base) else do
-    let zero := (List.range m).map (fun i => bootOneSided leb nB (fun r => c r i) (fun _ => some 0))
-    let ncj := fldD j "nc_rows" Json.null
-    if ncj.isNull then pure (obj (base ++ [("zero", ofList ofFloat zero)])) else do
-      let ncRows ← asList (asOpt asFloat) ncj
-      -- a single value is broadcast over the rows
-      let ref : Nat → Option Float := fun r =>
-        if ncRows.length = 1 then ncRows.getD 0 none else ncRows.getD r none
-      let nc := (List.range m).map (fun i => bootOneSided leb nB ref (fun r => c r i))
-      pure (obj (base ++ [("zero", ofList ofFloat zero), ("nc", ofList ofFloat nc)]))
+  -- one value per bootstrap sample (mean over folds / repetitions), one p-value per model
+  let zero := (List.range m).map (fun i => bootZeroNd leb nB shape E i)
+  let ncj := fldD j "nc_lower" Json.null
+  if ncj.isNull then pure (obj (base ++ [("zero", ofList ofFloat zero)])) else do
+    let ncShape ← asList asNat (fldD j "nc_shape" (Json.arr #[]))
+    let scalar ← asBool (fldD j "nc_scalar" (Json.bool false))
+    let ncNd ← parseNd asFloat ncj
+    -- a single value is broadcast over the bootstrap samples
+    let ncFn : Nat → List Nat → Option Float := fun r idx =>
+      if scalar then ncNd.get [] else ncNd.get (r :: idx)
+    let nc := (List.range m).map (fun i => bootNcNd leb nB shape (if scalar then [] else ncShape) E ncFn i)
+    pure (obj (base ++ [("zero", ofList ofFloat zero), ("nc", ofList ofFloat nc)]))
 
 /-- the per-model subject vectors the rank-sum tests hand to `wilcoxon` -/
 def ranksumOp (j : Json) : R Json := do
@@ -175,7 +231,18 @@ def ranksumOp (j : Json) : R Json := do
   let m ← fld j "m" >>= asNat
   let n ← fld j "n" >>= asNat
   let E := evalsFn nd
-  pure (ofList (ofList ofOptF) ((List.range m).map (ranksumData nB n E)))
+  let c ← asFloat (fldD j "nc_value" (ofFloat 0))
+  let data := (List.range m).map (ranksumData nB n E)
+  -- the null distribution is external: report W⁺, W⁻ and the ranks (the `g` of `srP` packs them)
+  let pack : Float → Float → List Float → Json := fun wp wm rk =>
+    obj [("plus", ofFloat wp), ("minus", ofFloat wm), ("ranks", ofList ofFloat rk)]
+  let ofO : Option Json → Json := fun x => x.getD Json.null
+  let pairs := (List.range m).map (fun i => (List.range m).map (fun k =>
+    if i < k then ofO (wilcoxonPair pack (ranksumData nB n E i) (ranksumData nB n E k)) else Json.null))
+  let zero := (List.range m).map (fun i => ofO (ranksumValueSR pack nB n E 0 i))
+  let ncv := (List.range m).map (fun i => ofO (ranksumValueSR pack nB n E c i))
+  pure (obj [("data", ofList (ofList ofOptF) data), ("pair", ofList (ofList id) pairs),
+    ("zero", ofList id zero), ("nc", ofList id ncv)])
 
 /-- `eval_fixed` from the per-subject evaluations `x[model][subject]` on -/
 def fixedOp (j : Json) : R Json := do
@@ -187,10 +254,13 @@ def fixedOp (j : Json) : R Json := do
   let v := fixedVars m n x
   let eff := (List.range m).map (fun i => some (meanN n (x i)))
   let cov := (List.range m).map (fun i => (List.range m).map (fun k => fixedCov n x i k))
+  let ncUp ← asOpt asFloat (fldD j "nc_upper" Json.null)
+  let t ← tStatsJson m eff v ncLow ncUp
   pure (obj [("cov", ofList (ofList ofFloat) cov), ("vars", ofVars ofFloat v),
     ("sem", ofList ofFloat (v.model.map getSem)),
     ("dof", ofInt (Rsa.Gen.C06.fixedDof n)),
-    ("means", ofList ofOptF eff), ("t", tStatsJson m eff v ncLow)])
+    ("dof_routes", dofRoutes (Rsa.Gen.C06.fixedDof n)),
+    ("means", ofList ofOptF eff), ("t", t)])
 
 /-- variances a `Result` built by an evaluation function must report for its stored covariance:
     corrected with the count(s) of the resampled factor(s) only -/
